@@ -8,6 +8,10 @@ CHECKS = {
    note="Assumes A-sql (meaning of the capacity SELECT, whose text is pinned), A-sum, A-real, A-int, A-key, A-heap, A-order, A-txn. Handlers/_set_allocations/reshape obligations are listed in evidence when present.",
    design="4/C01"),
 }
+CHECKS['C16'] = dict(
+   text="Deductive, exhaustive over the real route table: every handler function (all version overloads, through the real decorators and PlacementWsgify.call_func) is symbolically executed for every microversion and request; on every path the first effectful call is context.can(<the one rule whose documented operations contain this method+path>) with fatal refusal, a refusal leaves as PolicyNotAuthorized with no effect, early exits are only 404/405/406/415. RequestContext.can, PlacementHandler.__call__ (403/404 mapping) and both auth middlewares (401 unless '/') are verified from their bodies; default check strings are proved equivalent to the documented role formulas with z3. Failed obligations are replayed on the real WSGI stack with refused callers / single-rule overrides.",
+   note="Trusted: oslo.policy evaluation of check strings, keystonemiddleware, webob.dec.wsgify, routes.Mapper dispatch (A-lib). deploy() stacking order is not yet an obligation.",
+   design="4/C16")
 NA = {
  'C17': "quantifies over injected database faults and the retry behaviour of oslo.db/enginefacade; both would have to be assumed, at which point the contract restates the property (DESIGN section 5)",
 }
